@@ -16,6 +16,8 @@ from vlib import build, common
 
 SIGNED, UNSIGNED, ADR, ADRP = 0, 1, 2, 3
 BAND = 4096
+DISPIMM_KINDS = 14     # b bl b.ne cbz cbnz tbz tbnz adr adrp + literal loads through a bound label
+NEW_MODES = ("modimm", "simdshift", "dispimm", "ldstoff")
 
 
 def spec_of(f):
@@ -137,6 +139,20 @@ def immediate_jobs(tier, seed, scale):
         jobs.append(["--mode", "movwide", "--seed", s(), "--random", str(int((100000 if q else 600000) * scale) or 100),
                      "--reps", str(int((100 if q else 600) * scale) or 2)])
     jobs.append(["--mode", "bitfield", "--seed", s(), "--xsamples", "500"])
+    # AdvSIMD modified immediates (movi / mvni / orr / bic), one job per instruction
+    for kind in range(4):
+        jobs.append(["--mode", "modimm", "--seed", s(), "--kind", str(kind), "--xsamples", "120"])
+    # SIMD shift-by-immediate / fixed-point #fbits, load/store offsets
+    jobs.append(["--mode", "simdshift", "--seed", s(), "--xsamples", "300"])
+    jobs.append(["--mode", "ldstoff", "--seed", s(), "--xsamples", "300"])
+    # the assembler's own displacement path (bound label / known base address): 14/19/21-bit fields exhaustively; the 26-bit
+    # ones at their limits + random (quick), exhaustively in parts (thorough)
+    for kind in range(DISPIMM_KINDS):
+        if kind < 2 and not q and scale >= 1:
+            for part in range(8):
+                jobs.append(["--mode", "dispimm", "--seed", s(), "--kind", str(kind), "--exh26", "1", "--part", str(part), "--parts", "8"])
+        else:
+            jobs.append(["--mode", "dispimm", "--seed", s(), "--kind", str(kind)])
     jobs.append(["--mode", "split", "--seed", s(), "--count", str(int((20000 if q else 500000) * scale) or 100)])
     return jobs
 
@@ -237,6 +253,10 @@ def run(tier, args):
         for v in res["violations"]:
             if v["key"].startswith("harness:"):
                 raise common.HarnessError("driver self-check failed: %s %s" % (v["key"], v["what"]))
+            # (known findings never use up the per-class budget below: a new key must not hide behind them)
+            if any(f.get("status") == "known" and common.key_matches(f["key"], v["key"]) for f in chk._findings):
+                chk.violation(v["key"], "%s [%d cases in this shard]" % (v["what"], v.get("count", 1)), {"argv": argv})
+                continue
             # one defect in a shared predicate shows up under hundreds of per-format keys: report the first few of a class
             cls = ":".join(v["key"].split(":")[:2])
             class_count[cls] = class_count.get(cls, 0) + 1
@@ -307,14 +327,23 @@ def run(tier, args):
             for k in ("valid_64", "valid_32", "constants", "sequence_length_histogram_sampled", "candidates"):
                 if k in res:
                     extra.setdefault(mode, {})[k] = res[k]
-            for k in ("accepted", "refused"):
+            for k in ("accepted", "refused", "encodable_by_another_class_refused_no_verdict"):
                 if k in res:
                     extra.setdefault(mode, {})[k] = extra.get(mode, {}).get(k, 0) + res[k]
+            if "movable_lane_values" in res:
+                extra.setdefault(mode, {})["movable_lane_values"] = res["movable_lane_values"]
 
     # every planned format must have been fully processed
     missing = [desc_of(s) for s in entries if desc_of(s) not in fmt_stats or fmt_stats[desc_of(s)]["parts_done"] != fmt_stats[desc_of(s)]["parts"]]
     if missing and not chk.violations:
         raise common.HarnessError("formats not fully processed: %s" % missing[:5])
+
+    # the modes added in round 11 must each have judged accepted AND refused requests
+    if not chk.violations:
+        for m in NEW_MODES:
+            st = extra.get(m, {})
+            if not by_mode.get(m) or not st.get("accepted") or not st.get("refused"):
+                raise common.HarnessError("mode %s observed nothing (evaluations %s, accepted %s, refused %s)" % (m, by_mode.get(m), st.get("accepted"), st.get("refused")))
 
     # 2. sampled second oracle
     mc = llvm_mc()
@@ -348,12 +377,21 @@ def run(tier, args):
                      "range + bands + misaligned neighbours" % (len(exh_grid), exh_limit))
     subspaces += [
         "all (N,immr,imms): 5334 64-bit and 1302 32-bit bitmask immediates and every value one bit away, through is_logical_imm/"
-        "encode_logical_imm/and/ands/orr/eor/tst/bic/bics/mov",
+        "encode_logical_imm/and/ands/orr/eor/tst/bic/bics/orn/eon/mov (mov with x7|w7, sp|wsp and xzr|wzr as destination)",
         "all 256 FP8 immediates x {h,s,d,4h,8h,2s,4s,2d} fmov plus all single-bit neighbours; is_fp16_imm8 over all 2^16 patterns"
         + ("; is_fp32_imm8 over all 2^32 patterns" if tier != "quick" else ""),
         "is_add_sub_imm over 0..2^24" + (" and add/sub/adds/subs/cmp/cmn (w,x) over every value 0..2^24" if tier != "quick" and args.scale >= 1
                                          else "; every instruction kind over 0..0x2100 and all multiples of 0x1000 +-1"),
         "bfi/sbfiz/ubfiz/bfxil/sbfx/ubfx/bfc: all lsb x width in 0..size+2; lsl/lsr/asr/ror: all shifts 0..size+2 (32 and 64 bit)",
+        "movi/mvni/orr/bic (vector, immediate): all imm8 x lsl/msl amounts {0,1,4,7,8,9,12,16,17,24,25,31,32,33,40,56,63,64,255} per arrangement; as element "
+        "values every lane value some MOVI/MVNI encoding writes (own AdvSIMDExpandImm, all op:cmode:imm8) and every value one bit away",
+        "SIMD shift by immediate (38 mnemonics incl. narrowing / long / fixed-point #fbits, every vector and scalar size) and scvtf/ucvtf/fcvtzs/fcvtzu "
+        "with a general purpose register: every amount 0..66",
+        "b.cond/cbz/cbnz/tbz/tbnz/adr/adrp/ldr-literal through a64::Assembler with a known base address or a bound label (EmitOp_DispImm): every "
+        "displacement of the 14/19/21-bit fields plus a 4096-unit band outside each end and misaligned neighbours"
+        + ("; b/bl: every 26-bit displacement" if tier != "quick" and args.scale >= 1 else ""),
+        "ldr/str (b,h,w,x,sw and SIMD b..q) offsets -600..33000 in offset / pre / post mode (scaled, unscaled fallback, refusals); ldp/stp/ldpsw/"
+        "ldnp/stnp offsets -1300..1300 in all modes; ldraa/ldrab -4200..4200",
     ]
     chk.coverage.update({
         "evaluations": evals,
